@@ -41,7 +41,7 @@ TARGETS = [('path', 4), ('existing', 4), ('handle', 2), ('dirty_handle', 2), ('b
 
 def gen_plan(rng, tier, index):
     kind = rng.wpick([('rdms', 4), ('data', 3), ('result', 2)])
-    plan = {'kind': kind, 'decorate': rng.subset(['unicode', 'naninf', 'matrix', 'nomeasure', 'floatdesc', 'emptystr', 'ragged', 'emptyarr'], 0.0, 0.8),
+    plan = {'kind': kind, 'decorate': rng.subset(['unicode', 'naninf', 'matrix', 'nomeasure', 'floatdesc', 'emptystr', 'ragged', 'emptyarr', 'bigendian'], 0.0, 0.8),
             'dec_seed': rng.randrange(10 ** 6)}
     if kind == 'rdms':
         plan['family'] = gen_family(rng, n_cond=(2, 14) if rng.chance(0.4) else (2, 8), n_rdm=(1, 6))
@@ -294,6 +294,14 @@ def _decorate(obj, plan, kind):
         flat[r.randrange(flat.size)] = np.nan
         flat[r.randrange(flat.size)] = np.inf
         flat[r.randrange(flat.size)] = -np.inf
+    if 'bigendian' in dec:
+        # arrays as read from big-endian binary formats: same values, non-native byte order
+        if kind == 'rdms':
+            o.dissimilarities = o.dissimilarities.astype(o.dissimilarities.dtype.newbyteorder('>'))
+        else:
+            o.measurements = o.measurements.astype(o.measurements.dtype.newbyteorder('>'))
+        o.descriptors['be_counts'] = np.array([1, 2, 515], dtype='>i2')
+        per_col['be_pos'] = np.array([0.66 + i for i in range(n_col)], dtype='>f4')
     if 'matrix' in dec:
         o.descriptors['noise'] = np.array([[2.0, 0.5], [0.5, 1.0]])
         o.descriptors['vec'] = np.array([1.5, -2.0, 3.25])
